@@ -867,6 +867,18 @@ class BaseInterpreter(Generic[TContext, TEvent]):
                 f"{type(snapshot).__name__}."
             )
 
+        # 🧱 A snapshot that lacks its mandatory parts is corrupt; say so with
+        #    a library error instead of a raw KeyError further down.
+        missing = [
+            key for key in ("context", "status") if key not in snapshot
+        ]
+        if "configuration" not in snapshot and "state_ids" not in snapshot:
+            missing.append("configuration")
+        if missing:
+            raise InvalidConfigError(
+                f"Snapshot is missing required key(s): {', '.join(missing)}."
+            )
+
         # 🧪 Create a new instance of the correct interpreter class (sync/async)
         interpreter = cls(machine)
         interpreter.context = snapshot["context"]
@@ -923,6 +935,11 @@ class BaseInterpreter(Generic[TContext, TEvent]):
         #    the parent's `services` registry, which is the same source the
         #    original spawn used.
         for actor_id, record in (snapshot.get("actors") or {}).items():
+            if not isinstance(record, dict) or "snapshot" not in record:
+                raise InvalidConfigError(
+                    f"Snapshot record of actor '{actor_id}' is corrupt: "
+                    "expected an object with a 'snapshot' entry."
+                )
             child_machine = interpreter._resolve_actor_machine(
                 record.get("src")
             )
